@@ -40,8 +40,10 @@ fn default_cap() -> u32 {
     10_000
 }
 
-fn gap() -> impl Strategy<Value = u64> {
+fn gap(long: bool) -> impl Strategy<Value = u64> {
     prop_oneof![
+        // very long idle periods (component tier only): 2^k ms +/- 5 s, k = 27..40 (2^32 ms = 49.7 days)
+        if long { 1 } else { 0 } => (27u32..=40, 0u64..10_000).prop_map(|(k, d)| (1u64 << k) + d - 5_000),
         5 => 0u64..5_000,
         3 => 60_000u64..3_600_000,
         3 => (5u64..2_000).prop_map(|d| DAY - d),
@@ -51,9 +53,9 @@ fn gap() -> impl Strategy<Value = u64> {
     ]
 }
 
-fn op(bulk_weight: u32) -> impl Strategy<Value = Op> {
+fn op(bulk_weight: u32, long: bool) -> impl Strategy<Value = Op> {
     prop_oneof![
-        6 => gap().prop_map(|ms| Op::Gap { ms }),
+        6 => gap(long).prop_map(|ms| Op::Gap { ms }),
         8 => (prop::bool::weighted(0.3), 0u8..12, 0u8..3, 0u8..6, proptest::option::weighted(0.6, prop_oneof![3 => 1u16..4, 3 => any::<u16>(), 1 => Just(0u16), 1 => 2000u16..2003]))
             .prop_map(|(v6, ip, sport, hash, explicit)| Op::Announce { v6, ip, sport, hash, explicit }),
         bulk_weight => (prop::bool::weighted(0.3), prop_oneof![1u16..40, 200u16..600, 480u16..520], 0u16..3, 0u8..6)
@@ -64,10 +66,11 @@ fn op(bulk_weight: u32) -> impl Strategy<Value = Op> {
 }
 
 fn strategy(max: usize, cap_h: u32) -> BoxedStrategy<Case> {
+    let long = cap_h >= 1_000_000;
     // 10..15 % of the cases get bulk operations that can cross the 500-pair limit
     prop_oneof![
-        6 => (any::<bool>(), vec(op(0), 10..max)),
-        1 => (any::<bool>(), vec(op(3), 10..max)),
+        6 => (any::<bool>(), vec(op(0, long), 10..max)),
+        1 => (any::<bool>(), vec(op(3, long), 10..max)),
     ]
     .prop_map(move |(node_v6, ops)| Case { node_v6, cap_h, ops })
     .boxed()
@@ -252,14 +255,14 @@ impl Stage for Component {
         tier.pick(20_000, 300_000)
     }
     fn strategy(&self, _t: Tier) -> BoxedStrategy<Case> {
-        strategy(120, 10_000)
+        strategy(120, 1_000_000)
     }
     fn run(&self, c: &Case) -> Outcome {
         let rt = paused_rt(1);
         rt.block_on(async { run_history(c, Sut::Component(AnnounceStorage::new()), true).await })
     }
     fn rule(&self) -> String {
-        format!("[re-exported AnnounceStorage, no network, no family filter] {RULE}")
+        format!("[re-exported AnnounceStorage, no network, no family filter; additionally idle periods of 2^k ms +/- 5 s, k = 27..40] {RULE}")
     }
     fn sample(&self, c: &Case) -> serde_json::Value {
         serde_json::json!({"node_v6": c.node_v6, "n_ops": c.ops.len(), "first": c.ops.iter().take(6).map(|e| format!("{e:?}")).collect::<Vec<_>>()})
